@@ -215,7 +215,11 @@ impl<'r> SchemaGen<'r> {
 			}
 			9 => {
 				let name = self.fresh_name();
-				let size = *[0usize, 1, 2, 3, 4, 8, 12, 16, 17].choose(self.rng).unwrap();
+				let size = if self.rng.gen_bool(0.2) {
+					*[9usize, 10, 11, 99, 100, 101, 105, 110, 1000, 1024].choose(self.rng).unwrap()
+				} else {
+					*[0usize, 1, 2, 3, 4, 8, 12, 16, 17].choose(self.rng).unwrap()
+				};
 				self.push(Reg::Fixed(name, size), None)
 			}
 			10 if self.decimals => {
